@@ -334,3 +334,45 @@ func emitCmd(args []string) int {
 	}
 	return 0
 }
+
+func init() { subcmds["taint-one"] = taintOneCmd }
+
+// taintOneCmd analyses one program (given by its signature) under every configuration of a set and prints the results:
+// the replay of a single taint-family case without the explorer.
+func taintOneCmd(args []string) int {
+	fs := flag.NewFlagSet("taint-one", flag.ExitOnError)
+	sig := fs.String("sig", "", "program signature")
+	cfgs := fs.String("cfgs", "c01", "configuration set")
+	only := fs.String("cfg", "", "only the configuration with this name")
+	file := fs.String("file", "", "analyse this main-package source file instead of a generated program")
+	fs.Parse(args)
+	var src string
+	if *file != "" {
+		b, err := os.ReadFile(*file)
+		if err != nil {
+			fmt.Fprintln(os.Stderr, err)
+			return 2
+		}
+		src = string(b)
+	} else {
+		p, err := gen.ParseSig(*sig)
+		if err != nil {
+			fmt.Fprintln(os.Stderr, err)
+			return 2
+		}
+		src = drv.MainSource(p, "P0_")
+	}
+	for _, c := range cfgSet(*cfgs) {
+		l, err := drv.LoadInProcess(src, gen.AnalysisRT)
+		if err != nil {
+			fmt.Fprintln(os.Stderr, "LOADERR", err)
+			return 2
+		}
+		r, _ := drv.RunTaint(l, c)
+		if *only != "" && !strings.Contains(c.String(), *only) {
+			continue
+		}
+		fmt.Printf("cfg[%s] flows=%v panic=%q err=%q\n", c.String(), r.Flows, r.Panic, r.Err)
+	}
+	return 0
+}
